@@ -140,6 +140,9 @@ def code_matches(got, want):
     return got == w or got == w + b'\n'
 
 
+INTERLACED = [0]
+
+
 def random_label_png(rng):
     w, h = rc.CART_W, rc.CART_H
     if rng.random() < 0.15:
@@ -152,6 +155,10 @@ def random_label_png(rng):
     pool = [(b'gAMA', struct.pack('>I', 45455)), (b'pHYs', struct.pack('>IIB', 2835, 2835, 1)), (b'bKGD', struct.pack('>HHH', 0, 0, 0)),
             (b'tEXt', b'Software\x00some editor'), (b'sRGB', b'\x00'), (b'tIME', struct.pack('>HBBBBB', 2021, 3, 4, 5, 6, 7))]
     extra = [c for c in pool if rng.random() < 0.3]
+    if rng.random() < 0.15:
+        # saved with the "interlaced" option of an image editor (Adam7)
+        INTERLACED[0] += 1
+        return rc.png_encode(w, h, rows, extra_chunks=extra, interlace=True), rows
     return rc.png_encode(w, h, rows, filters, extra_chunks=extra, idat_pieces=rng.choice((1, 1, 3, 40))), rows
 
 
@@ -240,7 +247,10 @@ def run_case(ctx, rng, c, workdir):
     label_rows = blank_label_rows()
     before = None
     if dest_exists:
+        n_int = INTERLACED[0]
         png, label_rows = random_label_png(rng)
+        if INTERLACED[0] > n_int:
+            ctx.feature('interlaced_label_source')
         with open(dest, 'wb') as fh:
             fh.write(png)
         before = png
@@ -476,7 +486,7 @@ def gates(m, tier):
     f, mon = m['features'], m['monitors']
     missed = []
     for k in ('class:empty', 'class:onechar', 'class:short', 'class:typical', 'class:repetitive_small', 'class:update60_start',
-              'class:update60_middle', 'class:update60_end', 'class:update60_raw', 'gfx_object_replaced', 'label_source_of_another_size', 'class:incompressible', 'class:near_compressed', 'class:oversize',
+              'class:update60_middle', 'class:update60_end', 'class:update60_raw', 'gfx_object_replaced', 'label_source_of_another_size', 'interlaced_label_source', 'class:incompressible', 'class:near_compressed', 'class:oversize',
               'class:repetitive_big', 'class:convert', 'class:stream_entry', 'class:cli_entry', 'dest_exists', 'dest_absent'):
         if f.get(k, 0) < 1:
             missed.append('%s never generated' % k)
